@@ -114,8 +114,41 @@ def verus_obligations(prop, unit_name, tier):
             if short in lost:
                 o.reason += ' [' + lost[short] + ']'
 
+    # Modular verification: a property also depends on every function its tagged functions call (directly or not),
+    # because callers are proved against the callees' contracts.  Close the tagged set under an over-approximated
+    # call graph (simple-name match inside the generated text).
+    ranges = verus_run.fn_ranges(unit.text)
+    lines = unit.text.split('\n')
+    body_of = {}
+    for (s0, e0, q) in ranges:
+        body_of.setdefault(q, '')
+        body_of[q] += '\n'.join(lines[s0 - 1:e0])
+    by_simple = {}
     for rec in unit.fns:
-        if prop not in rec['props'] or rec['external']:
+        by_simple.setdefault(rec['name'], []).append(rec)
+    wanted = [rec for rec in unit.fns if prop in rec['props']]
+    seen = set(id(r) for r in wanted)
+    work = list(wanted)
+    while work:
+        rec = work.pop()
+        text = verus_run.vx.mask_noncode(body_of.get(rec['qual'], ''))
+        for name, recs in by_simple.items():
+            if not re.search(r'(?<![A-Za-z0-9_])%s\s*\(' % re.escape(name), text):
+                continue
+            for r2 in recs:
+                if id(r2) in seen or r2 is rec:
+                    continue
+                if len(recs) > 1:
+                    # ambiguous simple name: need `Type::name(` or a method call `.name(`
+                    ty = r2['qual'].rsplit('::', 1)[0] if '::' in r2['qual'] else None
+                    pat = r'\.\s*%s\s*\(' % re.escape(name)
+                    if ty:
+                        pat += r'|(?<![A-Za-z0-9_])%s\s*::\s*%s\s*\(' % (re.escape(ty), re.escape(name))
+                    if not re.search(pat, text):
+                        continue
+                seen.add(id(r2)); wanted.append(r2); work.append(r2)
+    for rec in unit.fns:
+        if id(rec) not in seen or rec['external']:
             continue
         o = Ob('verus:%s::%s' % (unit_name, rec['qual']), 'verus/z3', 'contract')
         o.repo = rec['repo']
